@@ -42,6 +42,7 @@ def gen_module(rng, root, k, conflict=False):
         body.append('PUBLISHED:')
         body.append('  B%d();' % i)
         body.append('  int get_%d() const;' % i)
+        body.append('  int field_%d;' % i)
         for j in uses:
             body.append('  void take_%d_%d(B%d *p, const B%d &r);' % (i, j, j, j))
             body.append('  B%d *give_%d_%d() const;' % (j, i, j))
@@ -50,6 +51,7 @@ def gen_module(rng, root, k, conflict=False):
         if conflict:
             # every library defines its own, different, global type of the same name
             body += ['class Shared {', 'PUBLISHED:', '  int from_%d();' % i, '};']
+        body.append('#define LIBCONST_%d %d' % (i, 100 + i))
         body.append('#endif')
         open(os.path.join(d, 'h%d.h' % i), 'w').write('\n'.join(body) + '\n')
         files[i] = 'h%d.h' % i
